@@ -38,7 +38,7 @@ theorem recip_cutoff (n : Nat) (h0 : n ≠ 0) (hn : n < 2 ^ 24) :
   obtain ⟨hj, hnj, hj0, hjn⟩ := F32.recipExp_spec n h0 hn
   obtain ⟨m1, m2, b1, b2⟩ := F32.recip_mant n h0 hn
   have hdec := F32.decode_recipOfNat n h0 hn
-  unfold cutoff
+  unfold cutoff F32.cutoff
   rw [hdec]
   simp only []
   generalize F32.recipExp n = j at *
